@@ -27,7 +27,8 @@ PRELOAD = ['frame.geometry.geometry', 'frame.netlist.netlist', 'frame.die.die', 
            'tools.glbfloor.optimization', 'tools.netgen.netgen', 'numpy']
 RULE = ("all operation sequences of length <= 2 (quick) / <= 3 (thorough) over a 19-operation alphabet, each executed in a fresh interpreter forked from a pristine "
         "(imports only) process; after each history every one of 15 probes is run in its own forked child and its canonical digest compared with the digest of the "
-        "same probe forked from the pristine interpreter. states = distinct fingerprints of module-level mutable state reached; transitions = operations executed; "
+        "same probe forked from the pristine interpreter; and, for designs LOADED BEFORE the history (two netlists with near-miss orthogons, an allocation, a die), the answers of "
+        "create_stogs / griddify / refine / split_refinable_regions asked after every history of length <= 1 (thorough: <= 2). states = distinct fingerprints of module-level mutable state reached; transitions = operations executed; "
         "traces validated = (history, probe) pairs compared.")
 ASSUMPTIONS = ["history designs are within a factor of 1000 of the probed design's scale (the statement's own bound)",
                "digests compare observable results: verdicts, regions/cells/roles rounded to 1e-9 of the design scale, projected model sets of encodings (auxiliary variable "
@@ -600,6 +601,9 @@ def run_probe_forked(name):
 
 def check_case(case, res):
     """case = dict(history=[op names], probes=[names] or None)"""
+    if case.get('held'):
+        check_held(case, res)
+        return
     probes = case.get('probes') or list(PROBES)
     base_fp = fpm.fingerprint()
     baseline = {p: run_probe_forked(p) for p in probes}
@@ -635,6 +639,82 @@ def check_case(case, res):
     res.case('same' if not differs else 'differs', nontrivial=bool(case['history']))
 
 
+# ------------------------------------------------------------------ designs that are ALREADY LOADED when the history runs
+def build_held():
+    """designs loaded at the very beginning of the process; the history runs on other designs afterwards, and then an
+    operation is asked of these objects: its answer must be what it is when nothing happened in between"""
+    from frame.netlist.netlist import Netlist
+    from frame.allocation.allocation import Allocation
+    from frame.die.die import Die
+    held = {}
+    # two abutting rectangles on a 100-unit design whose shared side is written with 10 / 14 significant digits
+    # (they interpenetrate by 5e-9 / 5e-13): whether they form an orthogon depends on the tolerance in force
+    for key, third in (('nl10', 33.33333333), ('nl14', 33.333333333333)):
+        w2 = 100 - third + (5e-9 if key == 'nl10' else 5e-13)
+        held[key] = Netlist({'Modules': {'A': {'area': 10000, 'rectangles': [[third / 2, 50, third, 100], [100 - w2 / 2, 50, w2, 60]]},
+                                         'B': {'area': 400, 'rectangles': [[150, 50, 20, 20]]}}, 'Nets': [['A', 'B']]})
+    held['alloc'] = Allocation(alloc_doc(1.0, 2))
+    held['die'] = Die(dec_die_doc(1.0, 1))
+    return held
+
+
+def probe_held(held):
+    out = []
+    for key in ('nl10', 'nl14'):
+        n = held[key]
+        n.create_stogs()
+        out.append([key, [(m.name, m.has_stog, [r.location.name for r in m.rectangles]) for m in n.modules if m.num_rectangles]])
+    a = held['alloc']
+    out.append(['alloc', dg_alloc(a.griddify(), 0.1), dg_alloc(a.refine(0.5, 2), 0.1), a.must_be_refined(0.3)])
+    d = held['die']
+    d.split_refinable_regions(1.5, 9)
+    out.append(['die', dg_die(d, 0.3)])
+    return out
+
+
+def check_held(case, res):
+    """case = dict(held=True, history=[...]): objects loaded first, history on other designs, then operations on the objects"""
+    def forked(fn):
+        r, w = os.pipe()
+        pid = os.fork()
+        if pid == 0:
+            try:
+                os.close(r)
+                try:
+                    with quiet():
+                        txt = json.dumps(fn(), default=repr, sort_keys=True)
+                except BaseException as e:  # noqa
+                    txt = json.dumps(['RAISED', type(e).__name__, str(e)[:200]])
+                with os.fdopen(w, 'w') as f:
+                    f.write(txt)
+            finally:
+                os._exit(0)
+        os.close(w)
+        with os.fdopen(r) as f:
+            txt = f.read()
+        os.waitpid(pid, 0)
+        return txt
+    with quiet():
+        held = build_held()
+    baseline = forked(lambda: probe_held(held))          # asked at once, nothing in between
+    for op in case['history']:
+        res.transitions += 1
+        try:
+            with quiet():
+                OPS[op]()
+        except BaseException as e:  # noqa
+            raise RuntimeError(f'C20 harness: history operation {op} failed: {type(e).__name__}: {e}')
+    res.traces += 1
+    got = forked(lambda: probe_held(held))
+    if got != baseline:
+        b, g = json.loads(baseline), json.loads(got)
+        which = [x[0] for x, y in zip(b, g) if x != y] if isinstance(b, list) and isinstance(g, list) and len(b) == len(g) else ['?']
+        res.violation('history-dependent-result', dict(held=True, history=case['history']),
+                      dict(probe='held:' + '+'.join(which), depth=len(case['history'])), baseline[:700], got[:700],
+                      note='objects loaded before the history')
+    res.case('held-same' if got == baseline else 'held-differs', nontrivial=bool(case['history']))
+
+
 def histories(tier):
     names = list(OPS)
     depth = 2 if tier == 'quick' else 3
@@ -644,12 +724,24 @@ def histories(tier):
     return out
 
 
+def held_histories(tier):
+    names = list(OPS)
+    out = [[]] + [[n] for n in names]
+    if tier != 'quick':
+        out += [list(h) for h in itertools.product(names, repeat=2)]
+    return out
+
+
 def shards(tier):
     hs = histories(tier)
-    return [dict(i=i) for i in range(len(hs))]
+    return [dict(i=i) for i in range(len(hs))] + [dict(held=j) for j in range(len(held_histories(tier)))]
 
 
 def run_shard(shard, tier, res):
+    if 'held' in shard:
+        h = held_histories(tier)[shard['held']]
+        check_case(dict(held=True, history=h), res)
+        return
     h = histories(tier)[shard['i']]
     check_case(dict(history=h), res)
     res.samples.append(dict(history=h, probes=list(PROBES)))
